@@ -107,10 +107,16 @@ class Builder:
         return h
 
     # ---- leaves
-    def leaf(self, kind, shape, dtype="float64", order="C", constant=None, lo=-48, hi=48, layout=None):
+    def leaf(self, kind, shape, dtype="float64", order="C", constant=None, lo=-48, hi=48, layout=None, band=None):
+        """band=(a, b): magnitudes are drawn from [a, b] and the sign separately (values on both sides of 0 that stay
+        clear of it - for operations whose domain excludes a neighbourhood of 0 or of [-1, 1])"""
         n = int(np.prod(shape)) if len(shape) else 1
         if kind in ("intarray", "intscalar", "inttensor"):
             vals = self.draw(st.lists(st.integers(1, 4), min_size=n, max_size=n))
+        elif band is not None:
+            mags = self.draw(st.lists(st.integers(band[0], band[1]), min_size=n, max_size=n))
+            signs = self.draw(st.lists(st.booleans(), min_size=n, max_size=n))
+            vals = [m if sgn else -m for m, sgn in zip(mags, signs)]
         else:
             vals = self.draw(st.lists(st.integers(lo, hi), min_size=n, max_size=n))
         h = self.new_handle()
